@@ -197,6 +197,70 @@ def history_forgeries(ctx):
                                                                                                                "history": "protect via DC; protect from cache; unprotect forged"}, out[:80], "error")
 
 
+
+def cross_group_history(ctx):
+    """one long-lived cache, two groups: a member of group X (who legitimately holds X's seed keys) first has the cache unprotect a blob
+    for X that REUSES the victim blob's key identifier, then submits the victim's blob (group Y) with only enc_cek, nonce and content
+    replaced by ones made under X's KEK.  The KEK of a blob is bound to its protection descriptor; whatever the cache remembered from the
+    first call, the second must fail — never return the adversary's plaintext (real crypto, both layouts, sync and async)"""
+    import asyncio, dataclasses, hashlib, uuid
+    import dpapi_ng, dpapi_ng._client as c
+    from cryptography.hazmat.primitives.ciphers.aead import AESGCM
+    from cryptography.hazmat.primitives import keywrap
+    from dpapi_ng._blob import DPAPINGBlob, ProtectionDescriptor, SIDDescriptor
+    from dpapi_ng import _gkdi as g
+    from props.c06 import template
+    rk = uuid.UUID("d778c271-9025-9a82-f6dc-b8960b8ad8c5")
+    root = bytes(range(5, 69))
+    sid_y, sid_x = "S-1-5-21-1-2-3-1103", "S-1-5-21-9-9-9-500"
+    sd_x = ProtectionDescriptor.parse(sid_x).get_target_sd()
+    old = c.time
+    c.time = type("T", (), {"time_ns": staticmethod(lambda: clientsim.time_ns_for(361, 17, 13))})
+    try:
+        for hn in ("SHA512", "SHA256"):
+            for use_async in (False, True):
+                for layout in (True, False):
+                    cache = dpapi_ng.KeyCache()
+                    cache.load_key(root, root_key_id=rk, kdf_parameters=g.KDFParameters(hn).pack())
+                    a = DPAPINGBlob.unpack(dpapi_ng.ncrypt_protect_secret(b"the victim's secret", sid_y, root_key_identifier=rk, cache=dpapi_ng.KeyCache() if False else cache))
+                    kid = a.key_identifier
+                    # X's KEK for that key identifier, from X's own seed material (independent chain)
+                    kek_x = refimpl.kek_nonce(hn.lower(), refimpl.Chain(hn.lower(), root, rk, sd_x, kid.l0).K2(kid.l1, kid.l2), kid.key_info)
+                    cek = hashlib.sha256(b"member of X").digest()
+                    nonce = a.enc_content_parameters[4:16]
+                    evil = b"adversary chosen plaintext!"
+                    b_ = dataclasses.replace(a, protection_descriptor=SIDDescriptor(sid_x), enc_cek=keywrap.aes_key_wrap(kek_x, cek),
+                                             enc_content=AESGCM(cek).encrypt(nonce, b"a valid blob for group X", None))
+                    a2 = dataclasses.replace(a, enc_cek=keywrap.aes_key_wrap(kek_x, cek), enc_content=AESGCM(cek).encrypt(nonce, evil, None))
+                    # a fresh cache for the protecting side would do as well; the history below runs on ONE cache
+                    long_lived = dpapi_ng.KeyCache()
+                    long_lived.load_key(root, root_key_id=rk, kdf_parameters=g.KDFParameters(hn).pack())
+
+                    def un(blob_obj):
+                        wire = template(blob_obj, layout)
+                        try:
+                            r = asyncio.run(dpapi_ng.async_ncrypt_unprotect_secret(wire, cache=long_lived)) if use_async else dpapi_ng.ncrypt_unprotect_secret(wire, cache=long_lived)
+                            return "done " + hx(r)
+                        except Exception as e:  # noqa
+                            return "err " + canon_exc(e)
+                    first = un(b_)
+                    second = un(a2)
+                    third = un(a)
+                    ctx.count("real:cross_group_history")
+                    inp = {"scenario": "cross_group_history", "hash": hn, "async": use_async, "in_envelope": layout,
+                           "history": "unprotect X's blob reusing the victim's key identifier; unprotect the victim's blob re-keyed under X's KEK"}
+                    if first != "done " + hx(b"a valid blob for group X"):
+                        ctx.notes.append(f"cross_group_history: X's own blob did not decrypt ({first[:40]})")
+                    if second.startswith("done "):
+                        ctx.violation("a modified blob decrypts to different plaintext", inp, second[:80], "error")
+                        return
+                    if third != "done " + hx(b"the victim's secret"):
+                        ctx.violation("after the history the victim's intact blob no longer decrypts", inp, third[:80], "the plaintext")
+                        return
+    finally:
+        c.time = old
+
+
 def big_contents(ctx):
     """large plaintexts whose length sits on the chunk sizes a streaming decryptor would use (4 KiB … 128 KiB, ± one AES block), with
     bits of the ciphertext body and of the tag flipped (real crypto, both layouts): a chunked implementation must still verify the tag"""
@@ -360,6 +424,7 @@ def run(ctx):
     history_forgeries(ctx)
     big_contents(ctx)
     mode_confusion(ctx)
+    cross_group_history(ctx)
 
 
 def search(ctx, broken, disagreements):
@@ -371,6 +436,12 @@ def replay(ctx, payload):
     if v.get("scenario") == "big_contents":
         c2 = type(ctx)(ctx.prop, "quick", ctx.seed)
         big_contents(c2)
+        for x in c2.violations:
+            print(" ", x["what"], x["input"], x["observed"])
+        return not c2.violations
+    if v.get("scenario") == "cross_group_history":
+        c2 = type(ctx)(ctx.prop, "quick", ctx.seed)
+        cross_group_history(c2)
         for x in c2.violations:
             print(" ", x["what"], x["input"], x["observed"])
         return not c2.violations
